@@ -41,7 +41,8 @@ HintReadsFeedback == kind = "acyclic_unroll" =>
 (* ---- limit_fanout ---- *)
 \* the DAG shapes with every non-source node of one gate type (and: repeated operands are harmless; xor / nor: they are not)
 Retyped(c, t) == [c EXCEPT !.ty = [q \in 1..c.n |-> IF c.ty[q] = "input" THEN "input" ELSE t]]
-Shapes == {Retyped(c, t) : c \in DAG5(0), t \in {"and", "xor", "nor"}}
+Full == "MC_FULL" \in DOMAIN IOEnv          \* thorough tier: the 6-node shapes too
+Shapes == {Retyped(c, t) : c \in DAG5(0) \cup (IF Full THEN DAG6(0) ELSE {}), t \in {"and", "xor", "nor"}}
 InitLimitFanout == /\ kind = "limit_fanout" /\ F = {}
                    /\ c0 \in Shapes /\ k \in {2, 3}
                    /\ MaxFanout(c0) > k
